@@ -141,7 +141,16 @@ fn is_documentless_yaml_slice(c: &Call) -> bool {
 
 pub fn judge(h_calls: &[Call], docs: &[(Val, Fmt)], to: Fmt, acc: &mut Acc) {
     acc.evals += 1;
-    let (verdicts, wlog) = run_history(h_calls, to, MonWriter::new(), true);
+    // one history in three writes to a writer that accepts only 1-3 bytes per call (allowed by the Write
+    // contract): the bytes it ends up with must be the same
+    let total_len: usize = h_calls.iter().map(|c| c.input.len()).sum();
+    let writer = if total_len % 3 == 0 {
+        acc.count("histories_with_short_write_writer");
+        MonWriter::new().with_short(total_len as u64, 1 + total_len % 3)
+    } else {
+        MonWriter::new()
+    };
+    let (verdicts, wlog) = run_history(h_calls, to, writer, true);
     let case = || json!({"to": to.name(), "calls": calls_json(h_calls), "documents": docs.len()});
     // expected: fresh single-document translations
     let mut expected: Vec<u8> = vec![];
@@ -298,7 +307,7 @@ pub fn run(ctx: &Ctx) -> i32 {
             extra: serde_json::Map::new(),
             exhaustive: false,
             min_distinct: 500,
-            must_reach: vec![("cli_multi_input_invocations".into(), 100), ("framing_checked".into(), 1000), ("n_docs_300".into(), 10), ("n_docs_0".into(), 10), ("n_calls_3".into(), 10)],
+            must_reach: vec![("cli_multi_input_invocations".into(), 100), ("framing_checked".into(), 1000), ("n_docs_300".into(), 10), ("n_docs_0".into(), 10), ("n_calls_3".into(), 10), ("histories_with_short_write_writer".into(), 1000)],
         },
         acc,
     )
